@@ -83,6 +83,23 @@ theorem C13_duration_as_written (d : BitVec 64) :
   rw [durationToNanosOfDay_tie, nanosOfDayToDuration_tie]
   exact ⟨C13_duration_to_nanos_of_day _, C13_duration_to_nanos_of_day _⟩
 
+/-- **C12/C13, `time.Time` → time of day, as written.** The function reads the clock fields of the time IN UTC (`t = t.UTC()`
+    precedes the reads — `…_reads` lists what the regenerated function takes from its `time.Time`), and for fields within
+    their ranges the result is the exact count of nanoseconds since midnight, below 24 h: nothing wraps -/
+theorem C13_time_of_day_as_written (ns s m h : BitVec 64) (hns : ns.toNat < 1000000000) (hs : s.toNat < 60)
+    (hm : m.toNat < 60) (hh : h.toNat < 24) :
+    Gen.GoFn.ConvertTimeToNanosOfDay_reads = ["t_Nanosecond", "t_UTC_Second", "t_UTC_Minute", "t_UTC_Hour"] ∧
+    (Gen.GoFn.ConvertTimeToNanosOfDay ns s m h).toNat =
+      ns.toNat + s.toNat * 1000000000 + m.toNat * 60000000000 + h.toNat * 3600000000000 ∧
+    (Gen.GoFn.ConvertTimeToNanosOfDay ns s m h).toNat < 86400000000000 := by
+  refine ⟨rfl, nanosOfDay_tie ns s m h hns hs hm hh, ?_⟩
+  rw [nanosOfDay_tie ns s m h hns hs hm hh]; omega
+
+/-- the timestamp and date conversions read only what is the same in every location: `t.Unix()` and `t.Nanosecond()` -/
+theorem C13_instant_conversions_read_the_instant :
+    Gen.GoFn.ConvertTimeToEpochMillis_reads = ["t_Unix", "t_Nanosecond"] ∧
+    Gen.GoFn.ConvertTimeToEpochDays_reads = ["t_Unix"] := ⟨rfl, rfl⟩
+
 /-- non-vacuity: the regenerated functions evaluated on the documentation's boundary cases (`TimestampMax` and one
     millisecond beyond it) and on a value whose intermediate product wraps -/
 example : toR (Gen.GoFn.ConvertTimeToEpochMillis 9223372036854775#64 807000000#64) = .ok 9223372036854775807 := by decide
